@@ -4,9 +4,9 @@ Statements and property theorems only.
 
 Proved for all inputs: disjointness / bounds / size of the accepted data,
 rejection of overlaps, the memory image, the text round trip of all eight
-integer types and of strings (partial: finding F15, the assembler's lexer
-rewrites two runes inside string literals), and that assembling the printed
-lines yields the image.  Floats: their decimal text is *measured* against the assembler; the
+integer types and of strings (`$%+q`; the assembler's lexer rewriting two
+runes inside string literals is modelled: finding F15, fixed), and that
+assembling the printed lines yields the image.  Floats: their decimal text is *measured* against the assembler; the
 theorems take the measured fact as the hypothesis `FloatsOK`.
 Placements at negative offsets are outside the property's quantifier.
 -/
@@ -394,12 +394,14 @@ def LexerSafe (lit : List Nat) : Prop := asmSubst lit = lit
 
 instance (lit : List Nat) : Decidable (LexerSafe lit) := by unfold LexerSafe; exact inferInstance
 
-/-- **C13 (strings), partial.** For every byte string whose `%q` text the
-assembler's lexer leaves alone, the assembler reading that text with the
-printed length stores exactly the string's bytes.
-MISSING for the full property (finding F15): Go's `%q` prints the printable
-runes U+00B7 and U+2215 raw, and cmd/asm rewrites them to `.` and `/` in every
-token, string literals included — see `string_text_fails_at_middle_dot`. -/
+/-- **C13 (strings), any printability table.** For every byte string whose
+quoted text the assembler's lexer leaves alone, the assembler reading that text
+with the printed length stores exactly the string's bytes.  The guard is needed
+when runes are printed raw (the former `$%q`, finding F15, fixed): Go's `%q`
+prints the printable runes U+00B7 and U+2215 raw, and cmd/asm rewrites them to
+`.` and `/` in every token, string literals included — see
+`string_text_fails_at_middle_dot`.  With `$%+q` the guard always holds
+(`string_text_roundtrip`). -/
 theorem string_text_roundtrip_partial (fparse : List Char → Nat → Option Nat) (pr : Nat → Bool)
     (bs : List Nat) (hb : ∀ b ∈ bs, b < 256) (hl : LexerSafe (Quote.quote pr bs)) :
     asmValue fparse (Const.str bs).size ((Const.str bs).asm pr) = some (Const.str bs).enc := by
@@ -407,22 +409,24 @@ theorem string_text_roundtrip_partial (fparse : List Char → Nat → Option Nat
   simp only [Const.asm, asmValue, hl, Quote.unquote_quote pr bs hb, Const.size, Const.enc,
     Nat.lt_irrefl, if_false, Nat.sub_self, List.replicate_zero, List.append_nil]
 
-/-- **C13 (strings), ASCII-only quoting.** If no rune ≥ 0x80 is printed raw
-(Go's `%+q`), the round trip holds for every byte string — the form the
-property needs; today's `$%q` does not have it. -/
-theorem string_text_roundtrip_ascii_mode (fparse : List Char → Nat → Option Nat)
+/-- **C13 (strings).** `String.Asm` prints `$%+q`: no rune ≥ 0x80 is printed
+raw (`pr = fun _ => false`).  For every byte string the assembler reading that
+text with the printed length stores exactly the string's bytes. -/
+theorem string_text_roundtrip (fparse : List Char → Nat → Option Nat)
     (bs : List Nat) (hb : ∀ b ∈ bs, b < 256) :
     asmValue fparse (Const.str bs).size ((Const.str bs).asm (fun _ => false)) = some (Const.str bs).enc :=
   string_text_roundtrip_partial fparse _ bs hb
     (asmSubstAux_ascii _ (Quote.quote_ascii bs hb))
 
-/-- **Witness of F15.** The one-rune string `·` (bytes c2 b7; Go's IsPrint says
-printable, so `%q` prints it raw) is stored by the assembler as `.` followed by
-a zero byte. -/
+/-- **Witness of F15 (fixed; kept as a regression).** Printed raw — as the
+former `$%q` did, Go's IsPrint calling it printable — the one-rune string `·`
+(bytes c2 b7) is stored by the assembler as `.` followed by a zero byte; printed
+as `\u00b7` it survives. -/
 theorem string_text_fails_at_middle_dot :
     (Const.str [0xc2, 0xb7]).asm (fun r => r == 0xb7) = .str [0x22, 0xc2, 0xb7, 0x22] ∧
     asmValue (fun _ _ => none) 2 ((Const.str [0xc2, 0xb7]).asm (fun r => r == 0xb7)) = some [0x2e, 0] ∧
-    asmValue (fun _ _ => none) 3 ((Const.str [0xe2, 0x88, 0x95]).asm (fun r => r == 0x2215)) = some [0x2f, 0, 0] := by
+    asmValue (fun _ _ => none) 3 ((Const.str [0xe2, 0x88, 0x95]).asm (fun r => r == 0x2215)) = some [0x2f, 0, 0] ∧
+    asmValue (fun _ _ => none) 2 ((Const.str [0xc2, 0xb7]).asm (fun _ => false)) = some [0xc2, 0xb7] := by
   decide
 
 /-! ### Assembling the printed lines -/
@@ -435,6 +439,11 @@ def ConstOK (fparse : List Char → Nat → Option Nat) (pr : Nat → Bool) : Co
   | .int ty v => ty ∈ intTypes ∧ ty.InRange v
   | .float n bits text => (n = 4 ∨ n = 8) ∧ fparse text n = some bits
   | .str bs => (∀ b ∈ bs, b < 256) ∧ LexerSafe (Quote.quote pr bs)
+
+/-- With `$%+q` every byte string is fine. -/
+theorem constOK_str (fparse : List Char → Nat → Option Nat) (bs : List Nat) (hb : ∀ b ∈ bs, b < 256) :
+    ConstOK fparse (fun _ => false) (.str bs) :=
+  ⟨hb, asmSubstAux_ascii _ (Quote.quote_ascii bs hb)⟩
 
 theorem asmValue_const (fparse : List Char → Nat → Option Nat) (pr : Nat → Bool) (c : Const)
     (h : ConstOK fparse pr c) : asmValue fparse c.size (c.asm pr) = some c.enc := by
